@@ -69,7 +69,8 @@ def error_lines(errors, only_file="m.emb"):
         m = e[0]
         loc = m.location
         line = loc.start.line if loc else 0
-        out.append((line, bool(loc.is_synthetic) if loc else True, m.message, m.source_file))
+        sf = m.source_file if isinstance(m.source_file, str) else "<not-a-string:%s>" % type(m.source_file).__name__
+        out.append((int(line), bool(loc.is_synthetic) if loc else True, str(m.message), sf))
     return out
 
 
